@@ -15,7 +15,7 @@ if "--jobs" in sys.argv or True:
     want.discard("--jobs")
     base = sm.run_all("/repo")
     work = []
-    for d in sorted(glob.glob("/tmp/neut*_C*/NEUT_OUT/[NMQ][0-9].diff") + glob.glob("/verif/selftest/neutral/*.diff")):
+    for d in sorted(glob.glob("/tmp/neut*_C*/NEUT_OUT/[NMQR][0-9].diff") + glob.glob("/verif/selftest/neutral/*.diff")):
         sid = (d.split("/")[2].split("_")[1] + "-" + os.path.basename(d)[:2]) if d.startswith("/tmp/") else os.path.basename(d)[:-5]
         if want and sid not in want:
             continue
